@@ -58,7 +58,8 @@ class MThread:
 
 
 class Scheduler:
-    def __init__(self, choices=None, rng=None, max_steps=20000):
+    def __init__(self, choices=None, rng=None, max_steps=20000, yield_on_release=False):
+        self.yield_on_release = yield_on_release
         self.threads = []
         self.main_sem = _t.Semaphore(0)
         self.current = None
@@ -263,6 +264,8 @@ class CoopLock:
         if self.depth == 0:
             self.owner = None
             s.log.append(("rel", getattr(t, "idx", -1), self.name))
+            if s.yield_on_release and t is not None:
+                s.yield_point()       # optional: lets another thread run right after a critical section ends
 
     def locked(self):
         return self.owner is not None
